@@ -761,6 +761,21 @@ pub fn worker_c19(ctx: &WorkerCtx) -> WorkerOut {
             }
         }
     }
+    // all ordered pairs of blockers and padders (every flag combination, re-issuing variants): blocking x padding
+    // replacement is where the simulator's unwraps and assertions live
+    {
+        let bp: Vec<u16> = all.iter().cloned().filter(|i| matches!(sp.lib[*i as usize].kind, 'b' | 'p') && !sp.lib[*i as usize].name.contains("to3")).collect();
+        for x in &bp {
+            for y in &bp {
+                if sp.lib[*x as usize].kind != sp.lib[*y as usize].kind {
+                    sets.push((vec![*x, *y], vec![]));
+                    if (*x + *y) % 3 == 0 {
+                        sets.push((vec![], vec![*x, *y]));
+                    }
+                }
+            }
+        }
+    }
     // every set also with a randomised gadget added on the client or the server, so that the seed matters
     let qs: Vec<u16> = (0..sp.lib.len() as u16).filter(|i| sp.lib[*i as usize].kind == 'q').collect();
     let mut with_q = vec![];
@@ -783,7 +798,7 @@ pub fn worker_c19(ctx: &WorkerCtx) -> WorkerOut {
     let pps_menu: [Option<usize>; 8] = [None, Some(1), Some(2), Some(10), Some(1000), Some(u32::MAX as usize), Some(1usize << 32), Some(usize::MAX)];
     let mut jobs = vec![];
     for (i, j) in base.iter().enumerate() {
-        if q && sp.traces[j.trace as usize].len() == 3 && i % 2 != 0 {
+        if q && (sp.traces[j.trace as usize].len() == 3 && i % 2 != 0 || i % 5 >= 2) {
             continue;
         }
         if sp.traces[j.trace as usize].len() > 4 && i % 3 != 0 {
